@@ -235,7 +235,7 @@ impl<'a> Gen<'a> {
             let refs: Vec<&str> = names.iter().map(|s| s.as_str()).collect();
             return self.assignment(&refs, depth.min(1));
         }
-        let ty = *self.r.pick(&[Ty::Int, Ty::Int, Ty::Bool, Ty::Str, Ty::ListInt, Ty::Num, Ty::Map]);
+        let ty = *self.r.pick(&[Ty::Int, Ty::Int, Ty::Int, Ty::Bool, Ty::Bool, Ty::Str, Ty::Str, Ty::ListInt, Ty::ListInt, Ty::Num, Ty::Num, Ty::Map, Ty::Map, Ty::None]);
         self.expr(ty, depth)
     }
 
@@ -285,6 +285,16 @@ impl<'a> Gen<'a> {
         self.nodes += 1;
         let d = depth - 1;
         match ty {
+            Ty::Int if self.r.chance(1, 40) => {
+                // an integral value that carries a scale where an integer is expected: `(1.5 * 2) << 1`
+                // is an error although `3 << 1` is not (natural error; the model mirrors the engine)
+                let scaled = bin("*", Expr::Lit(Val::Num((*self.r.pick(&["1.5", "2.5", "0.5"])).to_string())), lit_i(2));
+                match self.r.below(3) {
+                    0 => bin(*self.r.pick(&["<<", ">>"]), scaled, lit_i(self.r.range(0, 4))),
+                    1 => bin(*self.r.pick(&["&", "|", "^"]), scaled, self.expr(Ty::Int, d)),
+                    _ => bin(*self.r.pick(&["&", "|"]), lit_i(self.r.range(0, 12)), Expr::Lit(Val::Num((*self.r.pick(&["3.0", "4.0", "12.0"])).to_string()))),
+                }
+            }
             Ty::Int => match self.r.below(12) {
                 0 | 1 => bin(*self.r.pick(&["+", "-"]), self.expr(Ty::Int, d), self.expr(Ty::Int, d)),
                 2 => bin("*", self.expr(Ty::Int, d), lit_i(self.r.range(0, 9))),
@@ -344,6 +354,15 @@ impl<'a> Gen<'a> {
                 _ => Expr::List((0..self.r.usize(4)).map(|_| self.expr(Ty::Int, d)).collect()),
             },
             Ty::ListBool => Expr::List((0..self.r.usize(4)).map(|_| self.expr(Ty::Bool, d)).collect()),
+            Ty::Map if self.r.chance(1, 4) => {
+                // a repeated key (and other keys around it): every entry is still evaluated, in order
+                let k = if self.r.chance(1, 2) { lit_s("k") } else { lit_i(1) };
+                let mut xs = vec![(lit_s("a"), self.any(d)), (k.clone(), self.any(d)), (lit_i(7), self.any(d)), (k, self.any(d))];
+                if self.r.chance(1, 2) {
+                    xs.push((lit_s("z"), self.any(d)));
+                }
+                Expr::Map(xs)
+            }
             Ty::Map => {
                 let n = self.r.usize(3);
                 Expr::Map(
@@ -409,6 +428,18 @@ impl<'a> Gen<'a> {
             self.set_var(&name, Ty::Num);
             return bin(op, rf(&name), rhs);
         }
+        if !nums.is_empty() && self.r.chance(1, 12) {
+            // re-assignment of a numerically equal number with another scale (2 vs 2.0), then a use
+            // that observes the scale
+            let name = nums[self.r.usize(nums.len())].clone();
+            let k = self.r.range(1, 9);
+            self.set_var(&name, Ty::Num);
+            return match self.r.below(3) {
+                0 => bin("=", rf(&name), Expr::List(vec![bin("=", rf(&name), lit_i(k)), bin("=", rf(&name), Expr::Lit(Val::Num(format!("{}.0", k)))), bin("|", rf(&name), lit_i(1))])),
+                1 => bin("=", rf(&name), Expr::List(vec![bin("=", rf(&name), Expr::Lit(Val::Num(format!("{}.0", k)))), bin("=", rf(&name), lit_i(k)), bin("<<", rf(&name), lit_i(1))])),
+                _ => bin("*=", rf(&name), Expr::Lit(Val::Num("1.0".into()))),
+            };
+        }
         if self.knobs.ctx_bare && self.r.chance(1, 12) {
             // compound assignment whose target is a context function: `f op= e` must bind f to f() op e
             let name = self.fresh("b");
@@ -466,9 +497,13 @@ impl<'a> Gen<'a> {
                 }
             }
             7 => {
-                // read
-                let n = self.r.pick(names).to_string();
-                rf(&n)
+                // read: a variable, or a name that was never bound (also names under which a global function exists)
+                if self.r.chance(1, 4) {
+                    rf(*self.r.pick(&["sum", "mul", "never_bound"]))
+                } else {
+                    let n = self.r.pick(names).to_string();
+                    rf(&n)
+                }
             }
             _ => self.any(depth),
         }
